@@ -566,6 +566,32 @@ func cmdCodecMutate(args []string) error {
 			b = in.newLine(b)
 		}
 		put(b, "valid")
+		// over-long integers: the same program with one integer written in 5 or 8 bytes (zero-padded in front, so that the
+		// VALUE still fits 32 bits) - malformed by the format, whatever the value
+		for j, in := range prog {
+			if sh := shapes[in.Op]; sh == "symint" || sh == "symintmode" || sh == "intmode" {
+				for _, L := range []int{5, 8} {
+					var ob []byte
+					for q, x := range prog {
+						if q != j {
+							ob = x.newLine(ob)
+							continue
+						}
+						v := minimal(u32(x.N))
+						pad := append(make([]byte, L-len(v)), v...)
+						switch sh {
+						case "symint":
+							ob = vm.NewLine(ob, uint16(x.Op), []string{string(bytesOf(x.A))}, pad, nil)
+						case "symintmode":
+							ob = vm.NewLine(ob, uint16(x.Op), []string{string(bytesOf(x.A))}, pad, []uint8{uint8(x.M)})
+						default:
+							ob = vm.NewLine(ob, uint16(x.Op), nil, pad, []uint8{uint8(x.M)})
+						}
+					}
+					put(ob, "overlong")
+				}
+			}
+		}
 		for k := 0; k < len(b); k++ {
 			put(b[:k], "trunc")
 		}
